@@ -188,8 +188,9 @@ class FormulaTransformer(m.MatcherDecoratableTransformer):
         i = next(i for i, v in enumerate(self.scopes) if scope == v)
 
         n_to_s = self.name_to_symbol[i]
-        while n_to_s is None:
-            i -= 1
+        while n_to_s is None:   # inlined comprehension: use the enclosing scope
+            scope = scope.parent
+            i = next(i for i, v in enumerate(self.scopes) if scope == v)
             n_to_s = self.name_to_symbol[i]
 
         symbol = n_to_s.get(node.value, None)
